@@ -1,7 +1,8 @@
 //! C12: the DAP adapter (`DebugSession`) driven in-process over a mock transport.
 //!
-//! * `gen_requests` derives request histories from a DAP grammar (valid / missing / ill-typed / absent
-//!   arguments, repeated and out-of-order commands).
+//! * `gen_requests` derives request histories from a DAP grammar over EVERY command of `dispatch` (valid /
+//!   missing / ill-typed / absent arguments, repeated and out-of-order commands, every session phase,
+//!   cancellation ahead of / after / of non-existent requests and of progress ids, stepping over thread creation).
 //! * `exec` runs every session of a request file in a forked worker process (the tracer calls
 //!   `waitpid(-1)`), records the wire exactly as written, and writes for each request line the
 //!   canonicalised list of messages the adapter wrote in answer to it (K: compared with the Lean session
@@ -12,6 +13,7 @@ use crate::util::*;
 use bugstalker::dap::transport::DapTransport;
 use bugstalker::dap::yadap::session::DebugSession;
 use serde_json::{Value, json};
+use std::collections::{BTreeMap, BTreeSet};
 use std::io::Write as _;
 use std::path::{Path, PathBuf};
 use std::sync::atomic::{AtomicI64, AtomicU64, Ordering};
@@ -22,16 +24,34 @@ use std::time::{Duration, Instant};
 // ------------------------------------------------------------------------------------------------
 // grammar
 
-/// commands of the grammar (all are arms of `DebugSession::dispatch`, except `frobnicate`)
+/// commands of the grammar: every arm of `DebugSession::dispatch` (tools/props/C12.py compares this list with
+/// the table extracted from the source on every run) and `frobnicate`, which `dispatch` does not know
 const COMMANDS: &[&str] = &[
-    "initialize", "launch", "setBreakpoints", "configurationDone", "threads", "stackTrace", "scopes",
-    "variables", "continue", "next", "stepIn", "stepOut", "pause", "evaluate", "disconnect", "terminate",
-    "terminateThreads", "frobnicate",
+    "initialize", "launch", "attach", "configurationDone", "setBreakpoints", "setFunctionBreakpoints",
+    "setInstructionBreakpoints", "setExceptionBreakpoints", "dataBreakpointInfo", "setDataBreakpoints",
+    "breakpointLocations", "exceptionInfo", "threads", "stackTrace", "scopes", "variables", "setVariable",
+    "continue", "restart", "restartFrame", "next", "stepIn", "stepInTargets", "stepOut", "stepBack",
+    "reverseContinue", "pause", "gotoTargets", "goto", "evaluate", "setExpression", "completions",
+    "loadedSources", "modules", "readMemory", "writeMemory", "disassemble", "terminate", "terminateThreads",
+    "cancel", "runInTerminal", "disconnect", "source", "frobnicate",
 ];
 /// argument mutations: `valid` well-typed arguments; `missing` the required member is absent;
-/// `illtyped` the required member has the wrong JSON type; `noargs` no `arguments` member at all;
-/// `nofile` (launch only) a program path that does not exist.
+/// `illtyped` the required member (or `arguments` itself) has the wrong JSON type; `noargs` no `arguments` member
+/// at all; `nofile` (launch / attach) a well-typed target that does not exist.
 const MUTS: &[&str] = &["valid", "missing", "illtyped", "noargs", "nofile"];
+/// session phases of the coverage table (the phase a request is *handled* in, computed from the wire)
+const PHASES: &[&str] = &["before-initialize", "before-launch", "before-configurationDone", "running", "stopped", "after-exit", "after-terminated"];
+/// commands whose handler calls `consume_cancellation`
+const CANCELLABLE: &[&str] = &["stackTrace", "evaluate", "readMemory", "disassemble"];
+/// commands whose success depends on a fallible debugger call on the live debuggee (hint `h:ok` / `h:fail`)
+const CALL_HINT: &[&str] = &["breakpointLocations", "setVariable", "restartFrame", "stepInTargets", "goto", "evaluate",
+    "setExpression", "readMemory", "writeMemory", "disassemble", "terminateThreads"];
+/// a successful answer to one of these changes what the debuggee does next: no output comparison for the session
+const PERTURBING: &[&str] = &["restart", "restartFrame", "goto", "setVariable", "setExpression", "writeMemory",
+    "terminateThreads", "setDataBreakpoints", "attach"];
+const RESUMING: &[&str] = &["configurationDone", "continue", "next", "stepIn", "stepOut", "restart"];
+/// the debuggee is mapped without ASLR: start of the executable's first segment (the ELF header)
+const IMAGE_BASE: &str = "0x555555554000";
 
 fn verif_root() -> PathBuf {
     // harness/ is CARGO_MANIFEST_DIR; the framework root is its parent
@@ -62,126 +82,313 @@ fn bp_line(name: &str) -> i64 {
     src.lines().position(|l| l.contains(&format!("BP:{name}"))).map(|i| i as i64 + 1).unwrap_or(1)
 }
 
+/// source breakpoints selected by `param` (the Lean model knows only how many there are: `srcBpCount`)
+fn src_bp_names(param: u64) -> Vec<&'static str> {
+    match param {
+        0..=3 => ["work", "end", "joined"][..param as usize].to_vec(),
+        _ => ["spawn1", "joined"][..((param - 3) % 3) as usize].to_vec(),
+    }
+}
+
 /// what the driver learned from the wire so far (to build *valid* arguments of later requests)
 #[derive(Default)]
-struct Observed { thread_id: Option<i64>, frame_id: Option<i64>, vars_ref: Option<i64> }
+struct Observed { thread_id: Option<i64>, frame_id: Option<i64>, vars_ref: Option<i64>, goto_target: Option<i64>, live_stopped: bool }
 
 fn build_args(cmd: &str, mutn: &str, param: u64, variant: &str, obs: &Observed) -> Option<Value> {
     if mutn == "noargs" { return None; }
     let tid = obs.thread_id.unwrap_or(1);
+    let frame = obs.frame_id.unwrap_or(tid << 16);
     let src = prog_src().to_string_lossy().to_string();
-    let v = match (cmd, mutn) {
-        ("initialize", _) => json!({"adapterID": "c12", "linesStartAt1": true}),
-        ("launch", "valid") => {
-            let args: Vec<&str> = if variant == "threads" { vec!["threads"] } else { vec![] };
-            json!({"program": prog_bin().to_string_lossy(), "args": args})
-        }
-        ("launch", "nofile") => json!({"program": "/nonexistent/c12/no-such-program"}),
-        ("launch", "missing") => json!({"args": []}),
-        ("launch", _) => json!({"program": 17}),
-        ("setBreakpoints", "valid") | ("setBreakpoints", "nofile") => {
-            let names = ["work", "end", "joined"];
-            let bps: Vec<Value> = (0..param.min(3) as usize).map(|i| json!({"line": bp_line(names[i])})).collect();
+    let valid = mutn == "valid" || mutn == "nofile";
+    let missing = mutn == "missing";
+    let v = match cmd {
+        "initialize" => json!({"adapterID": "c12", "linesStartAt1": true}),
+        "launch" => match mutn {
+            "valid" => {
+                let args: Vec<&str> = if variant == "threads" { vec!["threads"] } else { vec![] };
+                json!({"program": prog_bin().to_string_lossy(), "args": args})
+            }
+            "nofile" => json!({"program": "/nonexistent/c12/no-such-program"}),
+            "missing" => json!({"args": []}),
+            _ => json!({"program": 17}),
+        },
+        // no live attach target in this harness: `valid` is rejected by `parse_sessions`
+        "attach" => match mutn {
+            "nofile" | "valid" => json!({"pid": 2_000_000_000}),
+            "missing" => json!({"program": "x"}),
+            _ => json!({"pid": [1]}),
+        },
+        "setBreakpoints" => if valid {
+            let bps: Vec<Value> = src_bp_names(param).iter().map(|n| json!({"line": bp_line(n)})).collect();
             json!({"source": {"path": src}, "breakpoints": bps})
+        } else if missing { json!({"breakpoints": [{"line": 3}]}) } else { json!({"source": {"path": 5}, "breakpoints": "x"}) },
+        "setFunctionBreakpoints" => if valid {
+            let names = [json!({"name": "work"}), json!({"name": "no_such_function_c12"}), json!({"condition": "1"})];
+            json!({"breakpoints": names[..param.min(3) as usize].to_vec()})
+        } else if missing { json!({}) } else { json!({"breakpoints": "x"}) },
+        "setInstructionBreakpoints" => if valid {
+            // none of these reaches the debugger: unparsable reference, no reference, negative address
+            let bps = [json!({"instructionReference": "zz"}), json!({"offset": 4}), json!({"instructionReference": "0x10", "offset": -32})];
+            json!({"breakpoints": bps[..param.min(3) as usize].to_vec()})
+        } else if missing { json!({}) } else { json!({"breakpoints": 7}) },
+        "setExceptionBreakpoints" => if valid { json!({"filters": ["signal", "process"]}) } else if missing { json!({}) } else { json!({"filters": "all"}) },
+        "dataBreakpointInfo" => if valid { json!({"name": "acc"}) } else if missing { json!({}) } else { json!({"name": 5}) },
+        "setDataBreakpoints" => if valid {
+            let bps = [json!({"dataId": "expr:acc", "accessType": "read"}), json!({"accessType": "write"}), json!({"dataId": "expr:acc", "accessType": "write"})];
+            json!({"breakpoints": bps[..param.min(3) as usize].to_vec()})
+        } else if missing { json!({}) } else { json!({"breakpoints": {"dataId": 1}}) },
+        "breakpointLocations" => if valid {
+            match param % 3 {
+                0 => json!({"source": {"path": src}, "line": bp_line("work")}),
+                1 => json!({"instructionReference": IMAGE_BASE}),
+                _ => json!({"line": 3}),
+            }
+        } else if missing { json!({}) } else { json!("ill-typed-arguments") },
+        "stackTrace" => if valid { json!({"threadId": tid}) } else if missing { json!({"levels": 3}) } else { json!({"threadId": "one"}) },
+        "scopes" | "restartFrame" | "stepInTargets" => if valid { json!({"frameId": frame}) } else if missing { json!({}) } else { json!({"frameId": [1]}) },
+        "variables" => if valid { json!({"variablesReference": obs.vars_ref.unwrap_or(1)}) } else if missing { json!({"start": 0}) } else { json!({"variablesReference": "r"}) },
+        "setVariable" => if valid { json!({"variablesReference": obs.vars_ref.unwrap_or(1), "name": "acc", "value": "5"}) }
+            else if missing { json!({"variablesReference": 1, "name": "acc"}) } else { json!({"variablesReference": "r", "name": "acc", "value": "5"}) },
+        "evaluate" => if valid { json!({"expression": "acc", "frameId": frame}) } else if missing { json!({"context": "watch"}) } else { json!({"expression": 12}) },
+        "setExpression" => if valid { json!({"expression": "acc", "value": "7", "frameId": frame}) }
+            else if missing { json!({"expression": "acc"}) } else { json!({"expression": "acc", "value": 7}) },
+        "continue" | "next" | "stepIn" | "stepOut" | "pause" | "stepBack" | "reverseContinue" =>
+            if valid { json!({"threadId": tid}) } else if missing { json!({}) } else { json!({"threadId": "t"}) },
+        "gotoTargets" => if valid { json!({"source": {"path": src}, "line": bp_line("end")}) }
+            else if missing { json!({"source": {"path": src}}) } else { json!({"source": {"path": src}, "line": "x"}) },
+        // without a target learned from `gotoTargets` the request names an invalid one (an error response either way)
+        "goto" => if valid { json!({"targetId": obs.goto_target.unwrap_or(-1), "threadId": tid}) } else if missing { json!({}) } else { json!({"targetId": "x"}) },
+        "completions" => if valid { json!({"text": "acc", "column": if param % 2 == 0 { 4 } else { 1 }}) }
+            else if missing { json!({"text": "acc"}) } else { json!({"text": 5, "column": 1}) },
+        "readMemory" => if valid { json!({"memoryReference": IMAGE_BASE, "count": 16}) }
+            else if missing { json!({"memoryReference": IMAGE_BASE}) } else { json!({"memoryReference": 5, "count": 16}) },
+        // `valid`: nothing, or the eight bytes that are already there (the ELF identification)
+        "writeMemory" => if valid { json!({"memoryReference": IMAGE_BASE, "data": if param % 2 == 0 { "" } else { "f0VMRgIBAQA=" }}) }
+            else if missing { json!({"memoryReference": IMAGE_BASE}) } else { json!({"memoryReference": IMAGE_BASE, "data": 5}) },
+        "disassemble" => if valid { json!({"memoryReference": IMAGE_BASE, "offset": 4096, "instructionCount": 4}) }
+            else if missing { json!({"memoryReference": IMAGE_BASE}) } else { json!({"memoryReference": 5, "instructionCount": 4}) },
+        "disconnect" => if valid { json!({"terminateDebuggee": true}) } else if missing { json!({}) } else { json!({"terminateDebuggee": "yes"}) },
+        "terminateThreads" => if valid {
+            match param % 4 {
+                0 | 1 => json!({}),
+                2 => json!({"threadIds": [999_999_999]}),
+                // a real thread only while the debuggee is known to be stopped and alive (never signal a recycled id)
+                _ => if obs.live_stopped && obs.thread_id.is_some() { json!({"threadIds": [tid]}) } else { json!({"threadIds": [-1]}) },
+            }
+        } else if missing { json!({}) } else { json!({"threadIds": "all"}) },
+        "cancel" => {
+            let n = param / 4;
+            let pid = format!("bs-progress-{n}");
+            if valid {
+                match param % 4 { 0 => json!({"requestId": n}), 1 => json!({"progressId": pid}), 2 => json!({}), _ => json!({"requestId": n, "progressId": pid}) }
+            } else if missing { json!({}) } else {
+                match param % 4 { 0 => json!({"requestId": "x"}), 1 => json!({"progressId": 7}), 2 => json!({"requestId": n, "progressId": 7}), _ => json!("ill-typed-arguments") }
+            }
         }
-        ("setBreakpoints", "missing") => json!({"breakpoints": [{"line": 3}]}),
-        ("setBreakpoints", _) => json!({"source": {"path": 5}, "breakpoints": "x"}),
-        ("stackTrace", "valid") | ("stackTrace", "nofile") => json!({"threadId": tid}),
-        ("stackTrace", "missing") => json!({"levels": 3}),
-        ("stackTrace", _) => json!({"threadId": "one"}),
-        ("scopes", "valid") | ("scopes", "nofile") => json!({"frameId": obs.frame_id.unwrap_or(tid << 16)}),
-        ("scopes", "missing") => json!({}),
-        ("scopes", _) => json!({"frameId": [1]}),
-        ("variables", "valid") | ("variables", "nofile") => json!({"variablesReference": obs.vars_ref.unwrap_or(1)}),
-        ("variables", "missing") => json!({"start": 0}),
-        ("variables", _) => json!({"variablesReference": "r"}),
-        ("evaluate", "valid") | ("evaluate", "nofile") => json!({"expression": "acc", "frameId": obs.frame_id.unwrap_or(tid << 16)}),
-        ("evaluate", "missing") => json!({"context": "watch"}),
-        ("evaluate", _) => json!({"expression": 12}),
-        ("continue" | "next" | "stepIn" | "stepOut" | "pause", "valid" | "nofile") => json!({"threadId": tid}),
-        ("continue" | "next" | "stepIn" | "stepOut" | "pause", "missing") => json!({}),
-        ("continue" | "next" | "stepIn" | "stepOut" | "pause", _) => json!({"threadId": "t"}),
-        ("disconnect", "valid") | ("disconnect", "nofile") => json!({"terminateDebuggee": true}),
-        ("disconnect", "missing") => json!({}),
-        ("disconnect", _) => json!({"terminateDebuggee": "yes"}),
-        ("terminateThreads", "valid") | ("terminateThreads", "nofile") | ("terminateThreads", "missing") => json!({}),
-        ("terminateThreads", _) => json!({"threadIds": "all"}),
-        (_, "valid") | (_, "nofile") => json!({}),
-        (_, "missing") => json!({}),
-        (_, _) => json!("ill-typed-arguments"),
+        "runInTerminal" => if valid {
+            if param == 1 { json!({"kind": "integrated", "args": ["/bin/true"]}) } else { json!({"args": ["/nonexistent/c12/no-such-terminal"]}) }
+        } else if missing { json!({"kind": "integrated"}) } else { json!({"args": "x"}) },
+        "source" => if valid {
+            match param % 3 { 0 => json!({"source": {"path": src}}), 1 => json!({"sourceReference": 1}), _ => json!({"source": {"path": "/nonexistent/c12/no-such-source.rs"}}) }
+        } else if missing { json!({}) } else { json!("ill-typed-arguments") },
+        _ => if valid || missing { json!({}) } else { json!("ill-typed-arguments") },
     };
     Some(v)
 }
 
-/// a typical valid prefix, then noise
+type Cmds = Vec<(String, String, u64, bool)>;
+
+fn pick_mut(rng: &mut Rng) -> &'static str {
+    match rng.below(10) { 0..=5 => "valid", 6 => "missing", 7 => "illtyped", 8 => "noargs", _ => "nofile" }
+}
+
+/// a parameter that makes sense for the command (selects among its valid forms)
+fn pick_param(rng: &mut Rng, cmd: &str) -> u64 {
+    match cmd {
+        "cancel" => rng.below(4) + 4 * rng.range(1, 9),
+        "runInTerminal" => 0, // a program that does not exist: never a child process next to a debuggee
+        "setBreakpoints" => rng.below(6),
+        _ => rng.below(4),
+    }
+}
+
+/// commands that move the session to another phase or end it: in phase-coverage sessions they go last
+fn phase_changing(c: &str) -> u8 {
+    match c {
+        "launch" | "attach" | "configurationDone" | "continue" | "next" | "stepIn" | "stepOut" | "terminateThreads" | "goto" | "restartFrame" => 1,
+        // after `exited` the stop of a restarted debuggee is not announced: nothing that resumes follows a restart
+        "restart" => 2,
+        _ => 0,
+    }
+}
+
+/// request histories: (A) a well-ordered prefix followed by a mixed tail, (B) out of order from the start,
+/// (C) fully random, (D) cancellation, (E) stepping over thread creation, (F) phase coverage: every command of
+/// `dispatch` dealt from a shuffled deck into sessions that establish each of the seven phases.
 pub fn gen_requests(rng: &mut Rng, n: u64, out: &mut Out) -> Vec<String> {
     let mut req = vec![];
     let mut made = 0u64;
     let mut sid = 0u64;
+    let all: Vec<&str> = COMMANDS.iter().copied().filter(|c| *c != "disconnect" && *c != "terminate").collect();
+    // commands safe in a random position (restart is placed by the dedicated shapes only: after `exited` its stop
+    // is not announced, and what a later step did could not be read off the wire)
+    let tail_cmds: Vec<&str> = all.iter().copied().filter(|c| *c != "restart" && *c != "attach").collect();
+    let mut decks: Vec<Vec<(&str, &str)>> = vec![vec![]; PHASES.len()];
+    let mut phase_rr = rng.below(PHASES.len() as u64) as usize;
     while made < n {
         sid += 1;
-        let variant = if rng.chance(1, 3) { "threads" } else { "plain" };
+        let shape = rng.below(20);
+        let variant = if (9..=11).contains(&shape) || rng.chance(1, 3) { "threads" } else { "plain" };
         let force = match rng.below(4) { 0 => "fwdlate", _ => "free" };
         req.push(format!("C12 new {sid} {variant} {force}"));
         out.count(&format!("session.{variant}.{force}"), 1);
-        let shape = rng.below(10);
-        let mut cmds: Vec<(String, String, u64)> = vec![];
-        let mut push = |c: &str, m: &str, p: u64| cmds.push((c.to_string(), m.to_string(), p));
-        let pick_mut = |rng: &mut Rng| -> &'static str {
-            match rng.below(10) { 0..=5 => "valid", 6 => "missing", 7 => "illtyped", 8 => "noargs", _ => "nofile" }
-        };
-        // 0..=5: well-ordered prefix followed by a mixed tail; 6..=7: out of order from the start; 8..=9: fully random
-        if shape <= 5 {
-            push("initialize", "valid", 0);
-            if rng.chance(1, 4) { push("launch", pick_mut(rng), 0); }
-            push("launch", "valid", 0);
-            if rng.chance(3, 4) { push("setBreakpoints", "valid", rng.below(4)); }
-            if rng.chance(1, 5) { push("setBreakpoints", pick_mut(rng), rng.below(4)); }
-            push("configurationDone", "valid", 0);
-            let len = rng.range(2, 12);
-            for _ in 0..len {
-                let c = match rng.below(20) {
-                    0..=5 => "continue", 6 => "next", 7 => "stepIn", 8 => "stepOut", 9 => "threads", 10 => "stackTrace",
-                    11 => "scopes", 12 => "variables", 13 => "evaluate", 14 => "pause", 15 => "setBreakpoints",
-                    16 => "configurationDone", 17 => "terminateThreads", 18 => "frobnicate", _ => "initialize",
-                };
-                let m = pick_mut(rng);
-                push(c, m, rng.below(4));
+        let mut cmds: Cmds = vec![];
+        macro_rules! push { ($c:expr, $m:expr, $p:expr) => { cmds.push(($c.to_string(), $m.to_string(), $p, false)) }; }
+        macro_rules! piped { ($c:expr, $m:expr, $p:expr) => { cmds.push(($c.to_string(), $m.to_string(), $p, true)) }; }
+        match shape {
+            0..=2 => { // (A)
+                out.count("shape.A-ordered-prefix", 1);
+                push!("initialize", "valid", 0);
+                if rng.chance(1, 4) { push!("launch", pick_mut(rng), 0); }
+                push!("launch", "valid", 0);
+                if rng.chance(3, 4) { push!("setBreakpoints", "valid", rng.below(6)); }
+                if rng.chance(1, 5) { push!("setBreakpoints", pick_mut(rng), rng.below(4)); }
+                push!("configurationDone", "valid", 0);
+                for _ in 0..rng.range(2, 12) {
+                    let c = if rng.chance(1, 3) { "continue" } else { *rng.pick(&tail_cmds) };
+                    push!(c, pick_mut(rng), pick_param(rng, c));
+                }
             }
-        } else if shape <= 7 {
-            if rng.chance(1, 2) { push("initialize", "valid", 0); }
-            let len = rng.range(1, 6);
-            for _ in 0..len {
-                let c = *rng.pick(&["continue", "next", "stepIn", "stepOut", "pause", "threads", "stackTrace", "scopes",
-                    "variables", "evaluate", "setBreakpoints", "configurationDone", "terminateThreads", "frobnicate"]);
-                push(c, pick_mut(rng), rng.below(4));
+            3 => { // (B)
+                out.count("shape.B-out-of-order", 1);
+                if rng.chance(1, 2) { push!("initialize", "valid", 0); }
+                for _ in 0..rng.range(1, 6) { let c = *rng.pick(&tail_cmds); push!(c, pick_mut(rng), pick_param(rng, c)); }
+                push!("launch", pick_mut(rng), 0);
+                if rng.chance(1, 2) { push!("launch", "valid", 0); }
+                for _ in 0..rng.range(1, 8) {
+                    let c = if rng.chance(1, 3) { *rng.pick(&["continue", "configurationDone", "next"]) } else { *rng.pick(&tail_cmds) };
+                    push!(c, pick_mut(rng), pick_param(rng, c));
+                }
             }
-            push("launch", pick_mut(rng), 0);
-            if rng.chance(1, 2) { push("launch", "valid", 0); }
-            let len = rng.range(1, 8);
-            for _ in 0..len {
-                let c = *rng.pick(&["continue", "continue", "configurationDone", "next", "stepOut", "pause", "threads",
-                    "stackTrace", "evaluate", "setBreakpoints", "terminateThreads"]);
-                push(c, pick_mut(rng), rng.below(4));
+            4 => { // (C)
+                out.count("shape.C-random", 1);
+                for _ in 0..rng.range(3, 14) { let c = *rng.pick(&tail_cmds); push!(c, pick_mut(rng), pick_param(rng, c)); }
             }
-        } else {
-            let len = rng.range(3, 14);
-            for _ in 0..len {
-                let c = *rng.pick(&COMMANDS[..COMMANDS.len()]);
-                if c == "disconnect" || c == "terminate" { continue; }
-                push(c, pick_mut(rng), rng.below(4));
+            5..=8 => { // (D) cancellation; the sequence numbers of the session are known in advance: `base + i`
+                out.count("shape.D-cancel", 1);
+                let stopped = rng.chance(3, 4);
+                push!("initialize", "valid", 0);
+                let mut progress = 0u64; // progress ids taken so far (launch, modules, disassemble): the generator's own count
+                if stopped || rng.chance(1, 2) {
+                    push!("launch", "valid", 0); progress += 1;
+                    if stopped { push!("setBreakpoints", "valid", rng.range(1, 3)); push!("configurationDone", "valid", 0); }
+                }
+                let base = rng.range(1, 5);
+                let mut rot = rng.below(4) as usize; // the cancellable commands take turns
+                for _ in 0..rng.range(3, 6) {
+                    let target = CANCELLABLE[rot % 4]; rot += 1;
+                    let at = base + cmds.len() as u64; // seq of the next request
+                    match rng.below(8) {
+                        0..=2 => { // cancel ahead by request id
+                            let gap = rng.below(3); // other requests between the cancel and its target
+                            push!("cancel", "valid", 4 * (at + 1 + gap));
+                            for _ in 0..gap { let c = *rng.pick(&["threads", "loadedSources", "scopes", "evaluate", "stackTrace", "variables"]); push!(c, pick_mut(rng), 0); }
+                            push!(target, if rng.chance(4, 5) { "valid" } else { pick_mut(rng) }, 0);
+                            if target == "disassemble" { progress += 1; }
+                            if rng.chance(1, 2) { push!(target, "valid", 0); if target == "disassemble" { progress += 1; } } // the same command again, not cancelled
+                        }
+                        3 => { // cancel a past request, then the command again
+                            push!(target, "valid", 0); if target == "disassemble" { progress += 1; }
+                            push!("cancel", "valid", 4 * at);
+                            push!(target, "valid", 0); if target == "disassemble" { progress += 1; }
+                        }
+                        4 => { // cancel a request id nobody will use, or both ids
+                            push!("cancel", "valid", 4 * (at + 1000) + if rng.chance(1, 2) { 0 } else { 3 });
+                            push!(target, "valid", 0); if target == "disassemble" { progress += 1; }
+                        }
+                        5 | 6 => { // cancel by progress id: the id the next `disassemble` will take (exact unless a
+                                   // `stackTrace` disassembled frames in between: then it is just some other id)
+                            let delta = if rng.chance(3, 4) { 1 } else { rng.range(0, 3) };
+                            push!("cancel", "valid", 4 * (progress + delta) + 1);
+                            if rng.chance(1, 3) { push!("modules", "valid", 0); progress += 1; }
+                            push!("disassemble", "valid", 0); progress += 1;
+                            if rng.chance(1, 2) { push!("disassemble", "valid", 0); progress += 1; }
+                        }
+                        _ => { // ill-typed cancels: one of them records the request id before it fails
+                            push!("cancel", "illtyped", 4 * (at + 1) + rng.below(4));
+                            push!(target, "valid", 0); if target == "disassemble" { progress += 1; }
+                        }
+                    }
+                }
+                // fix the sequence numbers: consecutive from `base`
+                let mut i = 0u64;
+                for (c, m, p, _) in cmds.drain(..).collect::<Vec<_>>() { req.push(format!("C12 req {} {c} {m} {p}", base + i)); i += 1; made += 1; }
+                if rng.chance(2, 3) { req.push(format!("C12 req {} disconnect valid 0", base + i)); made += 1; }
+                continue;
+            }
+            9..=11 => { // (E) stop on the statement that spawns a thread, step over it, ask for the threads, run on
+                out.count("shape.E-thread-steps", 1);
+                push!("initialize", "valid", 0);
+                push!("launch", "valid", 0);
+                push!("setBreakpoints", "valid", rng.range(4, 5));
+                push!("configurationDone", "valid", 0);
+                if rng.chance(1, 3) { push!("threads", "valid", 0); }
+                let step = *rng.pick(&["next", "next", "stepIn", "stepOut"]);
+                push!(step, "valid", 0);
+                if step != "next" { for _ in 0..rng.below(3) { let c = *rng.pick(&["next", "threads", "stackTrace", "pause", "stepIn"]); push!(c, "valid", 0); } }
+                push!("threads", "valid", 0);
+                // over the `join`: the worker is gone, the next `threads` announces its exit from the cache diff
+                if step == "next" && rng.chance(3, 4) { push!("next", "valid", 0); push!("threads", "valid", 0); }
+                for _ in 0..rng.range(1, 5) { let c = *rng.pick(&["next", "threads", "continue", "continue", "stepOut", "terminateThreads", "stackTrace"]); push!(c, "valid", if c == "terminateThreads" { 3 } else { 0 }); }
+                if rng.chance(1, 2) { push!("threads", "valid", 0); }
+            }
+            _ => { // (F) phase coverage
+                let ph = phase_rr; phase_rr = (phase_rr + 1) % PHASES.len();
+                out.count(&format!("shape.F-phase.{}", PHASES[ph]), 1);
+                if ph >= 1 { push!("initialize", "valid", 0); }
+                if ph >= 2 { push!("launch", "valid", 0); }
+                match PHASES[ph] {
+                    "running" | "stopped" => { push!("setBreakpoints", "valid", 3); push!("setFunctionBreakpoints", "valid", 1); push!("configurationDone", "valid", 0); }
+                    "after-exit" => { push!("configurationDone", "valid", 0); }
+                    "after-terminated" => { if rng.chance(1, 2) { push!("configurationDone", "valid", 0); } push!("terminateThreads", "valid", 0); }
+                    _ => {}
+                }
+                if decks[ph].len() < 10 {
+                    let mut d: Vec<(&str, &str)> = vec![];
+                    // (`attach`: the well-typed form names a process that does not exist - there is no live target here)
+                    for c in &all { for m in ["valid", "valid", "missing", "illtyped", "noargs"] { d.push((c, if *c == "attach" && m == "valid" { "nofile" } else { m })); } }
+                    for i in (1..d.len()).rev() { let j = rng.below(i as u64 + 1) as usize; d.swap(i, j); }
+                    decks[ph] = d;
+                }
+                let k = if PHASES[ph] == "running" { 5 } else { rng.range(5, 9) as usize };
+                let at = decks[ph].len() - k;
+                let mut hand: Vec<(&str, &str)> = decks[ph].split_off(at);
+                // a terminal program that really runs is a child of the adapter process: never next to a debuggee
+                let spawns = ph <= 1 && hand.iter().any(|(c, m)| *c == "runInTerminal" && *m == "valid");
+                if spawns { hand.retain(|(c, _)| *c != "launch"); }
+                hand.sort_by_key(|(c, _)| phase_changing(c));
+                if PHASES[ph] == "running" {
+                    // each command is sent while the previous resume request is still being executed
+                    for (c, m) in hand { push!("continue", "valid", 0); piped!(c, m, pick_param(rng, c)); }
+                } else {
+                    for (c, m) in hand {
+                        let p = if c == "runInTerminal" && spawns { 1 } else { pick_param(rng, c) };
+                        push!(c, m, p);
+                    }
+                }
             }
         }
         // how the session ends
         match rng.below(6) {
             0 => {}
-            1 => push("terminate", pick_mut(rng), 0),
-            2 => push("disconnect", "missing", 0),
-            _ => push("disconnect", pick_mut(rng), 0),
+            1 => push!("terminate", pick_mut(rng), 0),
+            2 => push!("disconnect", "missing", 0),
+            _ => push!("disconnect", pick_mut(rng), 0),
         }
-        if rng.chance(1, 8) { push("threads", "valid", 0); } // a request after the session has ended
+        if rng.chance(1, 8) { push!("threads", "valid", 0); } // a request after the session has ended
         let mut cseq = rng.range(1, 5);
-        for (c, m, p) in cmds {
+        for (c, m, p, piped) in cmds {
+            if piped { req.push("C12 pipe".into()); }
             req.push(format!("C12 req {cseq} {c} {m} {p}"));
             cseq += rng.range(1, 3);
             made += 1;
@@ -207,7 +414,11 @@ impl DapTransport for Mock {
         // like the real transports, this blocks while the caller holds the transport mutex
         self.rec.rec(json!({"t": "read"}));
         READS.fetch_add(1, Ordering::SeqCst);
-        self.rx.recv().map_err(|_| anyhow::anyhow!("DAP connection closed"))
+        let m = self.rx.recv().map_err(|_| anyhow::anyhow!("DAP connection closed"))?;
+        // everything written from here to the next `got` is the answer to this request
+        self.rec.rec(json!({"t": "got"}));
+        GOT.fetch_add(1, Ordering::SeqCst);
+        Ok(m)
     }
     fn write_message(&mut self, m: &Value) -> anyhow::Result<()> {
         self.rec.rec(json!({"t": "w", "m": m}));
@@ -219,17 +430,23 @@ impl DapTransport for Mock {
             OUT_BYTES[i].fetch_add(m["body"]["output"].as_str().map(|s| s.len()).unwrap_or(0) as u64, Ordering::SeqCst);
         }
         if m["event"] == "exited" { EXITED.fetch_add(1, Ordering::SeqCst); }
-        if m["type"] == "response" && m["command"] == "launch" && m["success"] == true { LAUNCHES.fetch_add(1, Ordering::SeqCst); }
+        if m["type"] == "response" && m["success"] == true {
+            let c = m["command"].as_str().unwrap_or("");
+            if c == "launch" { LAUNCHES.fetch_add(1, Ordering::SeqCst); }
+            if PERTURBING.contains(&c) { PERTURBED.fetch_add(1, Ordering::SeqCst); }
+        }
         Ok(())
     }
 }
 
 static READS: AtomicU64 = AtomicU64::new(0);
+static GOT: AtomicU64 = AtomicU64::new(0);
 static WRITES: AtomicU64 = AtomicU64::new(0);
 static SESSION_WRITES: AtomicU64 = AtomicU64::new(0);
 static OUT_BYTES: [AtomicU64; 2] = [AtomicU64::new(0), AtomicU64::new(0)];
 static EXITED: AtomicU64 = AtomicU64::new(0);
 static LAUNCHES: AtomicU64 = AtomicU64::new(0);
+static PERTURBED: AtomicU64 = AtomicU64::new(0);
 /// number of forwarder allocations that are still to be held back (per forwarder) — `fwdlate` forcing
 static HOLD_FWD: [AtomicI64; 2] = [AtomicI64::new(0), AtomicI64::new(0)];
 static ALLOC_LOG: Mutex<Option<Arc<Recorder>>> = Mutex::new(None);
@@ -254,12 +471,90 @@ fn sched_hook(name: &'static str, seq: i64) {
     }
 }
 
-struct Req { cseq: i64, cmd: String, mutn: String, param: u64 }
+/// the thread list the debugger hands to `refresh_threads_with_events` (an observation of the debuggee, taken
+/// before the session diffs it against its cache)
+fn thread_probe(ids: &[i64]) {
+    if let Some(r) = ALLOC_LOG.lock().unwrap().as_ref() { r.rec(json!({"t": "tl", "ids": ids})); }
+}
+
+struct Req { cseq: i64, cmd: String, mutn: String, param: u64, piped: bool }
+
+/// how much slower than an idle machine this one is right now: (1-minute load average / cpus), at least 1.
+/// Launching a debuggee costs ~10 CPU-seconds (parallel DWARF loading): on a machine shared with other builds the
+/// stall limits below are multiplied by this factor, so that a starved session is not taken for a hung adapter.
+fn load_factor() -> u64 {
+    let load = std::fs::read_to_string("/proc/loadavg").ok().and_then(|s| s.split(' ').next().and_then(|x| x.parse::<f64>().ok())).unwrap_or(0.0);
+    let cpus = std::thread::available_parallelism().map(|n| n.get()).unwrap_or(1) as f64;
+    ((load / cpus).ceil() as u64).clamp(1, 20)
+}
+
+/// direct children of this process (the debuggee, or a forked child that has not yet become it)
+fn child_pids() -> Vec<i32> {
+    let me = std::process::id();
+    let mut out = vec![];
+    for e in std::fs::read_dir("/proc").into_iter().flatten().flatten() {
+        let p = e.file_name().to_string_lossy().to_string();
+        if !p.chars().all(|c| c.is_ascii_digit()) { continue; }
+        let st = std::fs::read_to_string(format!("/proc/{p}/stat")).unwrap_or_default();
+        let after: Vec<&str> = st.rsplit(')').next().unwrap_or("").split_whitespace().collect();
+        if after.get(1).and_then(|x| x.parse::<u32>().ok()) == Some(me) { if let Ok(pid) = p.parse() { out.push(pid); } }
+    }
+    out
+}
+
+/// what became of the debuggee PROCESS (seen through /proc, not through the adapter): `unload` a forked child that has
+/// not yet executed the program, `alive` the program, `gone` no child (or only a dead one). Used when a request that
+/// starts the debuggee is answered with an error: the debugger library may fail half-way (it does, under load, in the
+/// thread-creation race of its tracer), and what the debuggee did is an observation, not something the adapter owes.
+fn debuggee_state() -> &'static str {
+    let mut st = "gone";
+    for c in child_pids() {
+        let stat = std::fs::read_to_string(format!("/proc/{c}/stat")).unwrap_or_default();
+        let state = stat.rsplit(')').next().unwrap_or("").split_whitespace().next().unwrap_or("Z").to_string();
+        if state == "Z" || state == "X" { continue; }
+        let comm = std::fs::read_to_string(format!("/proc/{c}/comm")).unwrap_or_default();
+        if comm.trim().starts_with("c12_chatty") { return "alive"; }
+        st = "unload";
+    }
+    st
+}
+
+/// where every thread of this process and every child process is blocked (kept in the session log of a hang)
+fn hang_diag() -> Value {
+    let rd = |p: String| std::fs::read_to_string(p).unwrap_or_default().trim().to_string();
+    let me = std::process::id();
+    let mut tasks = vec![];
+    for e in std::fs::read_dir("/proc/self/task").into_iter().flatten().flatten() {
+        let t = e.file_name().to_string_lossy().to_string();
+        tasks.push(json!({"tid": t, "comm": rd(format!("/proc/self/task/{t}/comm")), "wchan": rd(format!("/proc/self/task/{t}/wchan")),
+            "syscall": rd(format!("/proc/self/task/{t}/syscall")), "stat": rd(format!("/proc/self/task/{t}/stat")).chars().take(80).collect::<String>()}));
+    }
+    let mut children = vec![];
+    for e in std::fs::read_dir("/proc").into_iter().flatten().flatten() {
+        let p = e.file_name().to_string_lossy().to_string();
+        if !p.chars().all(|c| c.is_ascii_digit()) { continue; }
+        let st = rd(format!("/proc/{p}/stat"));
+        let after = st.rsplit(')').next().unwrap_or("").split_whitespace().map(String::from).collect::<Vec<_>>();
+        if after.get(1).and_then(|x| x.parse::<u32>().ok()) == Some(me) {
+            children.push(json!({"pid": p, "stat": st.chars().take(80).collect::<String>(), "wchan": rd(format!("/proc/{p}/wchan")), "syscall": rd(format!("/proc/{p}/syscall"))}));
+        }
+    }
+    json!({"tasks": tasks, "children": children})
+}
 
 fn worker(variant: &str, force: &str, reqs: &[Req], log: &Path, expected_len: (u64, u64)) -> ! {
+    // own process group (the watchdog kills the group), no inherited stdout/stderr (a forked child of the library
+    // must not keep the pipes of `check` open), a small DWARF-loading pool (several sessions run side by side)
+    unsafe {
+        libc::setpgid(0, 0);
+        let null = libc::open(c"/dev/null".as_ptr(), libc::O_WRONLY);
+        if null >= 0 { libc::dup2(null, 1); libc::dup2(null, 2); }
+    }
+    if std::env::var_os("RAYON_NUM_THREADS").is_none() { unsafe { std::env::set_var("RAYON_NUM_THREADS", "4"); } }
     let rec = Arc::new(Recorder { f: Mutex::new(std::fs::File::create(log).unwrap()) });
     *ALLOC_LOG.lock().unwrap() = Some(rec.clone());
     bugstalker::dap::verif::set_sched_hook(Some(sched_hook));
+    bugstalker::dap::verif::set_thread_probe(Some(thread_probe));
     bugstalker::debugger::rust::Environment::init(None);
     let (tx, rx) = channel::<Value>();
     let io: Arc<Mutex<dyn DapTransport>> = Arc::new(Mutex::new(Mock { rx, rec: rec.clone() }));
@@ -272,25 +567,44 @@ fn worker(variant: &str, force: &str, reqs: &[Req], log: &Path, expected_len: (u
     let mut obs = Observed::default();
     let mut tx = Some(tx);
     let mut seen_lines = 0usize;
-    for (i, r) in reqs.iter().enumerate() {
-        if h.is_finished() {
-            rec.rec(json!({"t": "req", "i": i, "cmd": r.cmd, "closed": true}));
-            continue;
+    let mut sent = 0u64;
+    // the session reads once per loop iteration: it waits for message i when it has started read number i+1
+    let wait_reads = |k: u64, i: usize| {
+        let t0 = Instant::now();
+        while READS.load(Ordering::SeqCst) < k && !h.is_finished() {
+            if t0.elapsed() > Duration::from_secs(40 * load_factor()) {
+                rec.rec(json!({"t": "hang", "i": i, "diag": hang_diag()}));
+                // leave no stopped child behind (it would keep inherited descriptors open for ever)
+                for c in child_pids() { unsafe { libc::kill(c, libc::SIGKILL); } }
+                unsafe { libc::_exit(3) }
+            }
+            std::thread::sleep(Duration::from_micros(300));
         }
+    };
+    for (i, r) in reqs.iter().enumerate() {
+        // a request is sent when the previous one is answered completely; a piped one right away
+        if !r.piped { wait_reads(i as u64 + 1, i); }
+        if h.is_finished() { break; }
+        if !r.piped && i > 0 { rec.rec(json!({"t": "obs", "dbg": debuggee_state()})); }
         // refresh what we know from the wire (the worker re-reads its own log: simple and rarely done)
         let text = std::fs::read_to_string(log).unwrap_or_default();
         for l in text.lines().skip(seen_lines) {
             seen_lines += 1;
             let Ok(v) = serde_json::from_str::<Value>(l) else { continue };
             let m = &v["m"];
-            if m["event"] == "stopped" { if let Some(t) = m["body"]["threadId"].as_i64() { obs.thread_id = Some(t); } }
-            if m["type"] == "response" && m["command"] == "stackTrace" {
-                if let Some(id) = m["body"]["stackFrames"][0]["id"].as_i64() { obs.frame_id = Some(id); }
-            }
-            if m["type"] == "response" && m["command"] == "scopes" {
-                if let Some(id) = m["body"]["scopes"][0]["variablesReference"].as_i64() { obs.vars_ref = Some(id); }
+            if m["event"] == "stopped" { obs.live_stopped = true; if let Some(t) = m["body"]["threadId"].as_i64() { obs.thread_id = Some(t); } }
+            if m["event"] == "continued" || m["event"] == "exited" || m["event"] == "terminated" { obs.live_stopped = false; }
+            if m["type"] == "response" {
+                match m["command"].as_str().unwrap_or("") {
+                    "stackTrace" => if let Some(id) = m["body"]["stackFrames"][0]["id"].as_i64() { obs.frame_id = Some(id); },
+                    "scopes" => if let Some(id) = m["body"]["scopes"][0]["variablesReference"].as_i64() { obs.vars_ref = Some(id); },
+                    "gotoTargets" => if let Some(id) = m["body"]["targets"][0]["id"].as_i64() { obs.goto_target = Some(id); },
+                    "launch" | "attach" | "restart" | "terminateThreads" => obs.live_stopped = false,
+                    _ => {}
+                }
             }
         }
+        if r.piped { obs.live_stopped = false; }
         let args = build_args(&r.cmd, &r.mutn, r.param, variant, &obs);
         let mut msg = json!({"seq": r.cseq, "type": "request", "command": r.cmd});
         if let Some(a) = args { msg["arguments"] = a; }
@@ -299,24 +613,20 @@ fn worker(variant: &str, force: &str, reqs: &[Req], log: &Path, expected_len: (u
             HOLD_FWD[1].store(1, Ordering::SeqCst);
         }
         rec.rec(json!({"t": "req", "i": i, "cmd": r.cmd, "msg": msg}));
-        if tx.as_ref().unwrap().send(msg).is_err() { continue; }
-        // the request is answered completely when the session asks for the next message (or has ended):
-        // the session reads once per loop iteration, so request i is done at read number i+2
-        let t0 = Instant::now();
-        loop {
-            if READS.load(Ordering::SeqCst) >= i as u64 + 2 { break; }
-            if h.is_finished() { break; }
-            if t0.elapsed() > Duration::from_secs(40) { rec.rec(json!({"t": "hang", "i": i})); unsafe { libc::_exit(3) } }
-            std::thread::sleep(Duration::from_micros(300));
-        }
+        if tx.as_ref().unwrap().send(msg).is_err() { break; }
+        sent += 1;
     }
+    wait_reads(sent + 1, reqs.len());
+    if !h.is_finished() { rec.rec(json!({"t": "obs", "dbg": debuggee_state()})); }
     RELEASE.store(1, Ordering::SeqCst);
     drop(tx.take());
     let t0 = Instant::now();
     while !h.is_finished() && t0.elapsed() < Duration::from_secs(20) { std::thread::sleep(Duration::from_millis(1)); }
+    // requests the session never read (it had ended before): the connection was already closed for them
+    for i in GOT.load(Ordering::SeqCst) as usize..reqs.len() { rec.rec(json!({"t": "req", "i": i, "cmd": reqs[i].cmd, "closed": true})); }
     // the debuggee ran to its exit: everything it printed is in the pipes; wait (generously: the machine may be
     // loaded) until the forwarders have delivered it, so that `output-lost` is never a scheduling artefact
-    if EXITED.load(Ordering::SeqCst) > 0 && LAUNCHES.load(Ordering::SeqCst) == 1 {
+    if EXITED.load(Ordering::SeqCst) > 0 && LAUNCHES.load(Ordering::SeqCst) == 1 && PERTURBED.load(Ordering::SeqCst) == 0 {
         let t0 = Instant::now();
         while (OUT_BYTES[0].load(Ordering::SeqCst) < expected_len.0 || OUT_BYTES[1].load(Ordering::SeqCst) < expected_len.1)
             && t0.elapsed() < Duration::from_secs(20) {
@@ -339,50 +649,75 @@ fn worker(variant: &str, force: &str, reqs: &[Req], log: &Path, expected_len: (u
 // ------------------------------------------------------------------------------------------------
 // parent: sessions -> workers -> answers + oracle
 
-struct Session { variant: String, force: String, new_line: String, reqs: Vec<(String, Option<Req>)> }
+enum Item { Req(String, Req), Pipe(String), Bad(String) }
+struct Session { variant: String, force: String, new_line: String, items: Vec<Item> }
+impl Session {
+    fn reqs(&self) -> Vec<&Req> { self.items.iter().filter_map(|i| if let Item::Req(_, r) = i { Some(r) } else { None }).collect() }
+    fn lines(&self) -> Vec<String> {
+        std::iter::once(self.new_line.clone()).chain(self.items.iter().map(|i| match i { Item::Req(l, _) | Item::Pipe(l) | Item::Bad(l) => l.clone() })).collect()
+    }
+}
 
 fn parse_sessions(lines: &[String]) -> Vec<Session> {
     let mut out: Vec<Session> = vec![];
+    let mut piped = false;
     for l in lines {
         let t: Vec<&str> = l.split(' ').filter(|x| !x.is_empty()).collect();
         match t.as_slice() {
             ["C12", "new", _sid, variant, force] if ["plain", "threads"].contains(variant) && ["free", "fwdlate"].contains(force) => {
-                out.push(Session { variant: variant.to_string(), force: force.to_string(), new_line: l.clone(), reqs: vec![] });
+                out.push(Session { variant: variant.to_string(), force: force.to_string(), new_line: l.clone(), items: vec![] });
+                piped = false;
             }
             ["C12", "sched", ..] => {} // recomputed from the run
+            ["C12", "pipe"] if !out.is_empty() => { out.last_mut().unwrap().items.push(Item::Pipe("C12 pipe".into())); piped = true; }
             ["C12", "req", cseq, cmd, mutn, param, ..] if !out.is_empty() && cseq.parse::<i64>().is_ok() && param.parse::<u64>().is_ok()
-                && COMMANDS.contains(cmd) && MUTS.contains(mutn) => {
-                let r = Req { cseq: cseq.parse().unwrap(), cmd: cmd.to_string(), mutn: mutn.to_string(), param: param.parse().unwrap() };
-                let base = format!("C12 req {cseq} {cmd} {mutn} {param}");
-                out.last_mut().unwrap().reqs.push((base, Some(r)));
+                && COMMANDS.contains(cmd) && MUTS.contains(mutn) && !(*cmd == "attach" && *mutn == "valid") => {
+                let r = Req { cseq: cseq.parse().unwrap(), cmd: cmd.to_string(), mutn: mutn.to_string(), param: param.parse().unwrap(), piped };
+                piped = false;
+                out.last_mut().unwrap().items.push(Item::Req(format!("C12 req {cseq} {cmd} {mutn} {param}"), r));
             }
             _ => {
-                if out.is_empty() { out.push(Session { variant: "plain".into(), force: "free".into(), new_line: String::new(), reqs: vec![] }); }
-                out.last_mut().unwrap().reqs.push((l.clone(), None));
+                if out.is_empty() { out.push(Session { variant: "plain".into(), force: "free".into(), new_line: String::new(), items: vec![] }); }
+                out.last_mut().unwrap().items.push(Item::Bad(l.clone()));
             }
         }
     }
     out
 }
 
-fn run_workers(sessions: &[Session], dir: &Path, expected: &[(Vec<u8>, Vec<u8>); 2]) -> Vec<(PathBuf, String)> {
-    let par = std::env::var("C12_PAR").ok().and_then(|s| s.parse().ok()).unwrap_or(6usize);
+/// A session whose worker stalled (40 s without an answer, or the 120 s watchdog) is run once more in a fresh
+/// worker: a stall of the machine (this check shares it with other builds) is not a verdict about the adapter; a
+/// hang of the adapter itself stalls again and is reported. The first log is kept as `s<i>.stalled.jsonl`.
+fn run_workers(sessions: &[Session], dir: &Path, expected: &[(Vec<u8>, Vec<u8>); 2], out: &mut Out) -> Vec<(PathBuf, String)> {
+    let mut results = run_workers_once(sessions, &(0..sessions.len()).collect::<Vec<_>>(), dir, expected);
+    let stalled: Vec<usize> = (0..sessions.len()).filter(|i| results[*i].1 == "exit3" || results[*i].1 == "watchdog").collect();
+    if !stalled.is_empty() {
+        out.count("session.stalled_and_rerun", stalled.len() as u64);
+        for i in &stalled { let _ = std::fs::rename(&results[*i].0, dir.join(format!("s{i}.stalled.jsonl"))); }
+        let again = run_workers_once(sessions, &stalled, dir, expected);
+        for i in stalled { results[i] = again[i].clone(); }
+    }
+    results
+}
+
+fn run_workers_once(sessions: &[Session], which: &[usize], dir: &Path, expected: &[(Vec<u8>, Vec<u8>); 2]) -> Vec<(PathBuf, String)> {
+    let par = std::env::var("C12_PAR").ok().and_then(|s| s.parse().ok()).unwrap_or(4usize);
     let mut results: Vec<(PathBuf, String)> = (0..sessions.len()).map(|i| (dir.join(format!("s{i}.jsonl")), String::new())).collect();
     let mut running: Vec<(i32, usize, Instant)> = vec![];
-    let mut next = 0usize;
-    while next < sessions.len() || !running.is_empty() {
-        while next < sessions.len() && running.len() < par {
+    let mut nexti = 0usize;
+    while nexti < which.len() || !running.is_empty() {
+        while nexti < which.len() && running.len() < par {
+            let next = which[nexti];
             let s = &sessions[next];
-            let reqs: Vec<Req> = s.reqs.iter().filter_map(|(_, r)| r.as_ref().map(|r| Req { cseq: r.cseq, cmd: r.cmd.clone(), mutn: r.mutn.clone(), param: r.param })).collect();
+            let reqs: Vec<Req> = s.reqs().iter().map(|r| Req { cseq: r.cseq, cmd: r.cmd.clone(), mutn: r.mutn.clone(), param: r.param, piped: r.piped }).collect();
             let pid = unsafe { libc::fork() };
             if pid == 0 {
-                // quiet worker: the library logs to stderr in places
                 let ex = if s.variant == "threads" { &expected[1] } else { &expected[0] };
                 worker(&s.variant, &s.force, &reqs, &results[next].0, (ex.0.len() as u64, ex.1.len() as u64));
             }
             assert!(pid > 0, "fork failed");
             running.push((pid, next, Instant::now()));
-            next += 1;
+            nexti += 1;
         }
         let mut i = 0;
         while i < running.len() {
@@ -394,8 +729,8 @@ fn run_workers(sessions: &[Session], dir: &Path, expected: &[(Vec<u8>, Vec<u8>);
                 running.swap_remove(i);
                 continue;
             }
-            if t0.elapsed() > Duration::from_secs(120) {
-                unsafe { libc::kill(pid, libc::SIGKILL); libc::waitpid(pid, &mut st, 0); }
+            if t0.elapsed() > Duration::from_secs(150 * load_factor()) {
+                unsafe { libc::kill(-pid, libc::SIGKILL); libc::kill(pid, libc::SIGKILL); libc::waitpid(pid, &mut st, 0); }
                 results[idx].1 = "watchdog".into();
                 running.swap_remove(i);
                 continue;
@@ -408,16 +743,18 @@ fn run_workers(sessions: &[Session], dir: &Path, expected: &[(Vec<u8>, Vec<u8>);
 }
 
 #[derive(Clone, Debug)]
-enum Rec { Req { closed: bool, cmd: String }, Read, W(Value), A { w: u64, seq: i64 }, End(String), Hang, Done }
+enum Rec { Closed, Got, W(Value), Tl(Vec<i64>), Obs(String), A { w: u64, seq: i64 }, End(String), Hang, Done }
 
 fn load_log(p: &Path) -> Vec<Rec> {
     let text = std::fs::read_to_string(p).unwrap_or_default();
     text.lines().filter_map(|l| {
         let v: Value = serde_json::from_str(l).ok()?;
         Some(match v["t"].as_str()? {
-            "req" => Rec::Req { closed: v["closed"] == true, cmd: v["cmd"].as_str().unwrap_or("").to_string() },
-            "read" => Rec::Read,
+            "req" if v["closed"] == true => Rec::Closed,
+            "got" => Rec::Got,
             "w" => Rec::W(v["m"].clone()),
+            "tl" => Rec::Tl(v["ids"].as_array()?.iter().filter_map(|x| x.as_i64()).collect()),
+            "obs" => Rec::Obs(v["dbg"].as_str()?.to_string()),
             "a" => Rec::A { w: v["w"].as_u64()?, seq: v["seq"].as_i64()? },
             "end" => Rec::End(v["res"].as_str()?.to_string()),
             "hang" => Rec::Hang,
@@ -430,55 +767,128 @@ fn load_log(p: &Path) -> Vec<Rec> {
 fn is_fwd_output(m: &Value) -> bool {
     m["event"] == "output" && (m["body"]["category"] == "stdout" || m["body"]["category"] == "stderr")
 }
-fn is_progress(m: &Value) -> bool { m["event"].as_str().is_some_and(|e| e.starts_with("progress")) }
 
-/// canonical token of one wire message (no bodies, no adapter sequence numbers)
-fn canon(m: &Value) -> String {
+/// thread ids are OS thread ids: canonical name = rank among all ids the session ever mentions
+fn thread_ranks(log: &[Rec]) -> BTreeMap<i64, usize> {
+    let mut ids: BTreeSet<i64> = Default::default();
+    for r in log {
+        match r {
+            Rec::Tl(l) => ids.extend(l.iter().copied()),
+            Rec::W(m) => {
+                if m["event"] == "thread" || m["event"] == "stopped" { if let Some(t) = m["body"]["threadId"].as_i64() { ids.insert(t); } }
+                if m["type"] == "response" && m["command"] == "threads" {
+                    for t in m["body"]["threads"].as_array().into_iter().flatten() { if let Some(id) = t["id"].as_i64() { ids.insert(id); } }
+                }
+            }
+            _ => {}
+        }
+    }
+    ids.into_iter().enumerate().map(|(i, t)| (t, i + 1)).collect()
+}
+
+fn progress_no(m: &Value) -> u64 {
+    m["body"]["progressId"].as_str().and_then(|s| s.strip_prefix("bs-progress-")).and_then(|s| s.parse().ok()).unwrap_or(0)
+}
+
+/// canonical token of one wire message (no bodies except thread / progress ids, no adapter sequence numbers)
+fn canon(m: &Value, ranks: &BTreeMap<i64, usize>) -> String {
     if m["type"] == "response" {
         format!("R.{}.{}.{}", m["command"].as_str().unwrap_or("?"), if m["success"] == true { "ok" } else { "err" }, m["request_seq"])
     } else if m["type"] == "event" {
         let e = m["event"].as_str().unwrap_or("?");
         match e {
             "stopped" => format!("E.stopped.{}", m["body"]["reason"].as_str().unwrap_or("?").replace(' ', "_")),
-            "thread" | "breakpoint" | "module" | "loadedSource" => format!("E.{e}.{}", m["body"]["reason"].as_str().unwrap_or("?")),
+            "thread" => format!("E.thread.{}.{}", m["body"]["reason"].as_str().unwrap_or("?"),
+                m["body"]["threadId"].as_i64().and_then(|t| ranks.get(&t)).copied().unwrap_or(0)),
+            "breakpoint" | "module" | "loadedSource" => format!("E.{e}.{}", m["body"]["reason"].as_str().unwrap_or("?")),
             "output" => format!("E.output.{}", m["body"]["category"].as_str().unwrap_or("?")),
+            "progressStart" | "progressUpdate" | "progressEnd" => format!("E.{e}.{}", progress_no(m)),
             _ => format!("E.{e}"),
         }
     } else { "M.unknown".into() }
 }
 
-struct Answer { tokens: Vec<String>, ended: Option<String>, closed: bool, hang: bool, msgs: Vec<Value> }
+/// the adapter iterates hash sets: inside a run of adjacent thread events the order is not part of the protocol
+/// (`started` first, then by id; `Driver.C12.normRuns` does the same to the model's answer)
+fn norm_thread_runs(tokens: &mut [String]) {
+    let key = |t: &String| -> (u8, u64) {
+        let p: Vec<&str> = t.split('.').collect();
+        (if p.get(2) == Some(&"started") { 0 } else { 1 }, p.get(3).and_then(|x| x.parse().ok()).unwrap_or(0))
+    };
+    let mut i = 0;
+    while i < tokens.len() {
+        if tokens[i].starts_with("E.thread.") {
+            let mut j = i;
+            while j < tokens.len() && tokens[j].starts_with("E.thread.") { j += 1; }
+            tokens[i..j].sort_by_key(key);
+            i = j;
+        } else { i += 1; }
+    }
+}
 
-/// per request: the messages written between its `req` record and the next one
-fn split_answers(log: &[Rec], nreq: usize) -> Vec<Answer> {
+#[derive(Default)]
+struct Answer { tokens: Vec<String>, ended: Option<String>, closed: bool, hang: bool, msgs: Vec<Value>, tls: Vec<Vec<i64>>, obs: Option<String> }
+
+/// per request: the messages written between the moment the session received it and the moment it received the next
+fn split_answers(log: &[Rec], nreq: usize, ranks: &BTreeMap<i64, usize>) -> Vec<Answer> {
     let mut out: Vec<Answer> = vec![];
     for r in log {
         match r {
-            Rec::Req { closed, .. } => out.push(Answer { tokens: vec![], ended: None, closed: *closed, hang: false, msgs: vec![] }),
+            Rec::Got => out.push(Answer::default()),
+            Rec::Closed => out.push(Answer { closed: true, ..Default::default() }),
             Rec::W(m) => if let Some(a) = out.last_mut() {
-                if !is_fwd_output(m) && !is_progress(m) { a.tokens.push(canon(m)); }
+                if !is_fwd_output(m) { a.tokens.push(canon(m, ranks)); }
                 a.msgs.push(m.clone());
             },
+            Rec::Tl(l) => if let Some(a) = out.last_mut() { a.tls.push(l.clone()); },
+            Rec::Obs(o) => if let Some(a) = out.last_mut() { a.obs = Some(o.clone()); },
             Rec::End(res) => if let Some(a) = out.last_mut() { a.ended = Some(res.clone()); },
             Rec::Hang => if let Some(a) = out.last_mut() { a.hang = true; },
             _ => {}
         }
     }
-    while out.len() < nreq { out.push(Answer { tokens: vec![], ended: None, closed: false, hang: true, msgs: vec![] }); }
+    for a in out.iter_mut() { norm_thread_runs(&mut a.tokens); }
+    while out.len() < nreq { out.push(Answer { hang: true, ..Default::default() }); }
     out
 }
 
-/// hints the Lean session model cannot know: what the *debuggee* did (never what the adapter owes)
-fn hints(cmd: &str, a: &Answer) -> String {
+/// hints the Lean session model cannot know: what the *debuggee* / the debugger library did (never what the adapter owes)
+fn hints(rq: &Req, a: &Answer, ranks: &BTreeMap<i64, usize>) -> String {
+    let cmd = rq.cmd.as_str();
     let has = |p: &str| a.tokens.iter().any(|t| t.starts_with(p));
+    let rsps: Vec<&Value> = a.msgs.iter().filter(|m| m["type"] == "response").collect();
+    let all_ok = !rsps.is_empty() && rsps.iter().all(|m| m["success"] == true);
     let outcome = if has("E.exited") { "exit".to_string() }
         else if let Some(t) = a.tokens.iter().find(|t| t.starts_with("E.stopped.")) { format!("stop:{}", &t["E.stopped.".len()..]) }
+        // the debugger call succeeded but the session announced nothing (its `terminated` latch is set): a stop if
+        // the thread cache was refreshed (or the command is a step), otherwise the debuggee ran to its end
+        else if RESUMING.contains(&cmd) && all_ok {
+            if !a.tls.is_empty() || matches!(cmd, "next" | "stepIn" | "stepOut") { "stop:unseen".to_string() } else { "exit".to_string() }
+        }
         else { "none".to_string() };
-    let ts = a.tokens.iter().filter(|t| *t == "E.thread.started").count();
-    let te = a.tokens.iter().filter(|t| *t == "E.thread.exited").count();
-    // evaluate on a live debuggee: whether the expression could be read is a property of the debuggee state
-    let ev = if cmd == "evaluate" { if has("R.evaluate.ok") { " h:evok" } else { " h:everr" } } else { "" };
-    format!("h:{outcome} ts:{ts} te:{te}{ev}")
+    let rank_list = |l: &Vec<i64>| { let mut v: Vec<usize> = l.iter().map(|t| ranks.get(t).copied().unwrap_or(0)).collect(); v.sort(); enc_list(&v, |x| x.to_string()) };
+    let tl = match a.tls.len() {
+        1 => format!("tl:{}", rank_list(&a.tls[0])),
+        0 => {
+            // no refresh was observed; a `threads` response still says which threads the debugger lists
+            let body = rsps.iter().find(|m| cmd == "threads" && m["success"] == true && m["body"]["threads"].is_array());
+            match body {
+                Some(m) => format!("tl:{}", rank_list(&m["body"]["threads"].as_array().unwrap().iter().filter_map(|t| t["id"].as_i64()).collect())),
+                None => "tl:none".to_string(),
+            }
+        }
+        _ => "tl:multi".to_string(),
+    };
+    let mut s = format!("h:{outcome} {tl}");
+    if CALL_HINT.contains(&cmd) { s += if rsps.last().is_some_and(|m| m["success"] == true) { " h:ok" } else { " h:fail" }; }
+    // a request that starts the debuggee and is answered with an error: what the process did nevertheless
+    if matches!(cmd, "configurationDone" | "restart") && !all_ok { if let Some(o) = &a.obs { s += &format!(" dbg:{o}"); } }
+    if cmd == "stackTrace" { s += &format!(" pg:{}", a.msgs.iter().filter(|m| m["event"] == "progressStart").count()); }
+    if cmd == "setDataBreakpoints" {
+        let n = rsps.last().map(|m| m["body"]["breakpoints"].as_array().into_iter().flatten().filter(|b| b["verified"] == true).count()).unwrap_or(0);
+        s += &format!(" nrec:{n}");
+    }
+    s
 }
 
 fn closed_by_client(res: &str) -> bool { res.contains("DAP connection closed") }
@@ -498,84 +908,114 @@ fn answer_line(a: &Answer) -> String {
 }
 
 // ------------------------------------------------------------------------------------------------
-// oracle: independent wire checker (five clauses)
+// phases (coverage table) and oracle: independent wire checker (five clauses)
 
-fn fail_suffix(cmd: &str, st: (bool, bool, bool)) -> String {
-    let (launched, started, over) = st;
-    let st = if !launched { "before-launch" } else if over { "after-exit" } else if !started { "before-start" } else { "live" };
-    format!("{cmd}-{st}")
+/// lifecycle of the debuggee as the CLIENT sees it on the wire, at the moment a request is received
+#[derive(Clone, Copy, Default)]
+struct Life { initialized: bool, launched: bool, started: bool, exited: bool, terminated: bool }
+impl Life {
+    fn see(&mut self, m: &Value) {
+        if m["type"] == "response" && m["success"] == true {
+            match m["command"].as_str().unwrap_or("") {
+                "initialize" => self.initialized = true,
+                "launch" | "attach" => { self.launched = true; self.started = m["command"] == "attach"; self.exited = false; self.terminated = false; }
+                "configurationDone" => self.started = true,
+                _ => {}
+            }
+        }
+        if m["event"] == "exited" { self.exited = true; }
+        if m["event"] == "terminated" { self.terminated = true; }
+    }
+    fn phase(&self, piped: bool) -> &'static str {
+        if piped { "running" }
+        else if self.exited { "after-exit" } else if self.terminated { "after-terminated" }
+        else if self.started { "stopped" } else if self.launched { "before-configurationDone" }
+        else if self.initialized { "before-launch" } else { "before-initialize" }
+    }
+    /// key suffix of oracle failures (kept from the first version of this check: known_findings.txt uses it)
+    fn fail_state(&self) -> &'static str {
+        if !self.launched { "before-launch" } else if self.exited || self.terminated { "after-exit" } else if !self.started { "before-start" } else { "live" }
+    }
 }
 
-fn oracle(s: &Session, log: &[Rec], status: &str, expected: &(Vec<u8>, Vec<u8>), out: &mut Out) {
-    let replay = |extra: Value| -> Value {
-        let lines: Vec<String> = std::iter::once(s.new_line.clone()).chain(s.reqs.iter().map(|(l, _)| l.clone())).collect();
-        json!({"session": lines, "detail": extra})
-    };
-    let reqs: Vec<&Req> = s.reqs.iter().filter_map(|(_, r)| r.as_ref()).collect();
-    // ---- clause 1 + 5: exactly one response per request, matching request_seq/command; failing request -> error response
-    // responses attributed to the request they follow; debuggee state *at the time of the request* for stable keys
-    let mut per_req: Vec<(bool, Vec<Value>, (bool, bool, bool))> = vec![];
-    let (mut launched, mut started, mut over) = (false, false, false);
+/// the client's view at the start of every answered / closed request
+fn lives(log: &[Rec]) -> Vec<Life> {
+    let mut out = vec![];
+    let mut st = Life::default();
     for r in log {
-        match r {
-            Rec::Req { closed, .. } => per_req.push((*closed, vec![], (launched, started, over))),
-            Rec::W(m) => {
-                if m["type"] == "response" { if let Some(p) = per_req.last_mut() { p.1.push(m.clone()); } }
-                if m["type"] == "response" && m["command"] == "launch" && m["success"] == true { launched = true; started = false; over = false; }
-                if m["type"] == "response" && m["command"] == "configurationDone" && m["success"] == true { started = true; }
-                if m["event"] == "exited" || m["event"] == "terminated" { over = true; }
-            }
-            _ => {}
-        }
+        match r { Rec::Got | Rec::Closed => out.push(st), Rec::W(m) => st.see(m), _ => {} }
     }
+    out
+}
+
+fn oracle(s: &Session, log: &[Rec], status: &str, expected: &(Vec<u8>, Vec<u8>), ranks: &BTreeMap<i64, usize>, out: &mut Out) {
+    let replay = |extra: Value| -> Value { json!({"session": s.lines(), "detail": extra}) };
+    let reqs = s.reqs();
+    let answers = split_answers(log, reqs.len(), ranks);
+    let lv = lives(log);
+    let c = |m: &Value| canon(m, ranks);
+    // ---- clause 1 + 5: exactly one response per request, matching request_seq/command; failing request -> error response
     let hung = log.iter().any(|r| matches!(r, Rec::Hang));
-    for (i, (closed, rsps, st)) in per_req.iter().enumerate() {
+    let mut cancelled_ahead: BTreeSet<i64> = Default::default(); // request ids named by an accepted `cancel` and not yet consumed
+    for (i, a) in answers.iter().enumerate() {
         let Some(rq) = reqs.get(i) else { continue };
-        if *closed { continue; }
-        let sfx = fail_suffix(&rq.cmd, *st);
+        if a.closed { continue; }
+        let st = lv.get(i).copied().unwrap_or_default();
+        let sfx = format!("{}-{}", rq.cmd, st.fail_state());
+        let rsps: Vec<&Value> = a.msgs.iter().filter(|m| m["type"] == "response").collect();
         out.oracle_evals += 1;
+        let was_cancelled = CANCELLABLE.contains(&rq.cmd.as_str()) && cancelled_ahead.remove(&rq.cseq);
         if rsps.is_empty() {
+            let how = if was_cancelled { "cancelled-" } else { "" };
             if hung || status == "watchdog" { out.oracle_fail(&format!("adapter-hang:{sfx}"), &format!("request {} ({}) never answered: the adapter hangs", rq.cseq, rq.cmd), replay(json!({"request": i}))); }
             else if status.starts_with("signal") { out.oracle_fail(&format!("adapter-crash:{sfx}"), &format!("worker died ({status}) while answering {}", rq.cmd), replay(json!({"request": i}))); }
-            else { out.oracle_fail(&format!("no-response:{sfx}"), &format!("request {} ({}) got no response", rq.cseq, rq.cmd), replay(json!({"request": i}))); }
+            else { out.oracle_fail(&format!("no-response:{how}{sfx}"), &format!("request {} ({}){} got no response", rq.cseq, rq.cmd, if was_cancelled { ", cancelled ahead of time by its request id," } else { "" }), replay(json!({"request": i}))); }
             continue;
         }
         if rsps.len() > 1 {
-            let shape: Vec<String> = rsps.iter().map(canon).collect();
+            let shape: Vec<String> = rsps.iter().map(|m| c(m)).collect();
             out.oracle_fail(&format!("two-responses-for-one-request:{sfx}"),
                 &format!("request seq {} ({}) got {} responses: {}", rq.cseq, rq.cmd, rsps.len(), shape.join(" ")), replay(json!({"request": i, "responses": shape})));
         }
-        for m in rsps {
+        for m in &rsps {
             if m["request_seq"].as_i64() != Some(rq.cseq) || m["command"].as_str() != Some(&rq.cmd) {
-                out.oracle_fail(&format!("response-mismatch:{}", rq.cmd), &format!("response {} does not match request seq {} command {}", canon(m), rq.cseq, rq.cmd), replay(json!({"request": i})));
+                out.oracle_fail(&format!("response-mismatch:{}", rq.cmd), &format!("response {} does not match request seq {} command {}", c(m), rq.cseq, rq.cmd), replay(json!({"request": i})));
             }
         }
+        // an accepted `cancel {requestId}` (a reading of the protocol: the named request, if it comes and is cancellable,
+        // is answered — with an error response saying so — never dropped)
+        if rq.cmd == "cancel" && rsps.iter().all(|m| m["success"] == true) && (rq.mutn == "valid" || rq.mutn == "nofile") && rq.param % 4 != 1 && rq.param % 4 != 2 {
+            cancelled_ahead.insert((rq.param / 4) as i64);
+        }
+        if was_cancelled && rsps.iter().any(|m| m["success"] == true) {
+            out.oracle_fail(&format!("cancelled-request-reported-success:{sfx}"), &format!("request {} ({}) was cancelled by its id before it arrived but is answered with success", rq.cseq, rq.cmd), replay(json!({"request": i})));
+        }
         // clause 5: a request that cannot succeed (a reading of the protocol, not of the code): a required argument is
-        // absent / ill-typed, the command is unknown, the program does not exist, or there is no debuggee to act on
-        let needs_dbg = matches!(rq.cmd.as_str(), "setBreakpoints" | "configurationDone" | "threads" | "stackTrace" | "scopes" | "continue" | "next" | "stepIn" | "stepOut" | "pause" | "evaluate");
-        let required_arg = matches!(rq.cmd.as_str(), "launch" | "setBreakpoints" | "stackTrace" | "scopes" | "variables" | "evaluate");
+        // absent / ill-typed, the command is unknown or not supported, the target does not exist, or there is no debuggee to act on
+        let cmd = rq.cmd.as_str();
+        let needs_dbg = matches!(cmd, "setBreakpoints" | "setFunctionBreakpoints" | "setInstructionBreakpoints" | "setDataBreakpoints" | "configurationDone"
+            | "threads" | "stackTrace" | "scopes" | "continue" | "next" | "stepIn" | "stepOut" | "pause" | "evaluate" | "setVariable" | "restart" | "restartFrame"
+            | "stepInTargets" | "gotoTargets" | "goto" | "setExpression" | "readMemory" | "writeMemory" | "disassemble" | "breakpointLocations");
+        let required_arg = matches!(cmd, "launch" | "attach" | "setBreakpoints" | "dataBreakpointInfo" | "breakpointLocations" | "stackTrace" | "scopes" | "variables"
+            | "setVariable" | "restartFrame" | "stepInTargets" | "gotoTargets" | "goto" | "evaluate" | "setExpression" | "completions" | "readMemory" | "writeMemory"
+            | "disassemble" | "runInTerminal" | "source");
         let bad_args = required_arg && matches!(rq.mutn.as_str(), "missing" | "illtyped" | "noargs");
-        let must_fail = rq.cmd == "frobnicate" || bad_args || (rq.cmd == "launch" && rq.mutn == "nofile") || (needs_dbg && !st.0);
+        let no_debuggee = !st.launched || (st.terminated && !st.exited);
+        let must_fail = matches!(cmd, "frobnicate" | "stepBack" | "reverseContinue") || bad_args
+            || (matches!(cmd, "launch" | "attach") && rq.mutn == "nofile") || (needs_dbg && no_debuggee);
         if must_fail && rsps.iter().all(|m| m["success"] == true) {
             out.oracle_fail(&format!("failing-request-reported-success:{sfx}"), &format!("request {} {} ({}) cannot succeed but the only response says success", rq.cseq, rq.cmd, rq.mutn), replay(json!({"request": i})));
         }
     }
     // a connection dropped by the adapter (run returned Err / panicked before the client closed)
-    {
-        let mut last_cmd = "?".to_string(); let mut nreq = 0usize;
-        for r in log {
-            match r {
-                Rec::Req { cmd, .. } => { last_cmd = cmd.clone(); nreq += 1; }
-                Rec::End(res) => {
-                    out.oracle_evals += 1;
-                    if res == "panic" {
-                        out.oracle_fail(&format!("adapter-panic:{last_cmd}"), &format!("the session thread panicked while handling {last_cmd}"), replay(json!({"request": nreq})));
-                    } else if res != "ok" && !closed_by_client(res) {
-                        out.oracle_fail(&format!("connection-dropped:{last_cmd}"), &format!("the adapter ended the session with an error while handling {last_cmd}: {res}"), replay(json!({"request": nreq})));
-                    }
-                }
-                _ => {}
-            }
+    for (i, a) in answers.iter().enumerate() {
+        let Some(res) = &a.ended else { continue };
+        let last_cmd = reqs.get(i).map(|r| r.cmd.clone()).unwrap_or("?".into());
+        out.oracle_evals += 1;
+        if res == "panic" {
+            out.oracle_fail(&format!("adapter-panic:{last_cmd}"), &format!("the session thread panicked while handling {last_cmd}"), replay(json!({"request": i})));
+        } else if res != "ok" && !closed_by_client(res) {
+            out.oracle_fail(&format!("connection-dropped:{last_cmd}"), &format!("the adapter ended the session with an error while handling {last_cmd}: {res}"), replay(json!({"request": i})));
         }
     }
     // ---- clause 2: seq = 1,2,3,... in wire order
@@ -585,84 +1025,135 @@ fn oracle(s: &Session, log: &[Rec], status: &str, expected: &(Vec<u8>, Vec<u8>),
         if m["seq"].as_i64() != Some(k as i64 + 1) {
             let who = |m: &Value| if is_fwd_output(m) { "forwarder" } else { "session" };
             let prev = if k > 0 { who(wire[k - 1]) } else { "-" };
-            out.oracle_fail("seq-out-of-wire-order", &format!("message #{} on the wire ({} by {}) carries seq {} (previous message by {})", k + 1, canon(m), who(m), m["seq"], prev),
+            out.oracle_fail("seq-out-of-wire-order", &format!("message #{} on the wire ({} by {}) carries seq {} (previous message by {})", k + 1, c(m), who(m), m["seq"], prev),
                 replay(json!({"position": k + 1, "seq": m["seq"], "force": s.force})));
             break;
         }
     }
     {
-        let mut seen: std::collections::BTreeSet<i64> = Default::default();
+        let mut seen: BTreeSet<i64> = Default::default();
         for m in &wire {
             let q = m["seq"].as_i64().unwrap_or(-1);
             if q < 1 || !seen.insert(q) {
-                out.oracle_fail("seq-duplicate-or-invalid", &format!("sequence number {q} of {} is repeated or not positive", canon(m)), replay(json!({"seq": q})));
+                out.oracle_fail("seq-duplicate-or-invalid", &format!("sequence number {q} of {} is repeated or not positive", c(m)), replay(json!({"seq": q})));
                 break;
             }
         }
     }
     // ---- clause 3 + 4: lifecycle events once and ordered, causal order, nothing after `terminated`
-    // (a `launch` request opens a new lifecycle: the client asked for a new debuggee)
+    // (a `launch` / `attach` request opens a new lifecycle: the client asked for a new debuggee)
     out.oracle_evals += 1;
     let (mut n_exited, mut n_terminated) = (0, 0);
     let mut terminated_at: Option<usize> = None;
-    let mut live_threads: std::collections::BTreeSet<i64> = Default::default();
+    let mut live_threads: BTreeSet<i64> = Default::default();   // announced `started`, not yet `exited`
+    let mut exited_once: BTreeMap<i64, usize> = Default::default(); // exit announced (and not started again since): in which lifecycle
+    let mut launches_seen = 0usize;
     let mut running = false; // between `continued` and the next `stopped`/`exited`
     let mut ever_exited = false;
-    let mut reported: std::collections::BTreeSet<String> = Default::default();
-    let mut fail = |out: &mut Out, key: String, what: String| { if reported.insert(key.clone()) { out.oracle_fail(&key, &what, replay(json!({}))); } };
+    let mut reported: BTreeSet<String> = Default::default();
+    let mut fail = |out: &mut Out, key: String, what: String, at: usize| { if reported.insert(key.clone()) { out.oracle_fail(&key, &what, replay(json!({"request": at}))); } };
     let mut k = 0usize;
+    let mut ri = 0usize; // index of the request being answered
+    let mut nreq_seen = 0usize;
+    // thread ids the adapter *used* (in a `threads` response, a `stopped` event) while answering the current request:
+    // each must be an announced live thread by the time the answer is complete
+    let mut used: Vec<(i64, &'static str)> = vec![];
+    let mut owed_stop: Option<(String, &'static str)> = None; // a resume request answered with success: a stop or the end must be announced
+    let check_boundary = |out: &mut Out, fail: &mut dyn FnMut(&mut Out, String, String, usize), used: &mut Vec<(i64, &'static str)>, owed: &mut Option<(String, &'static str)>,
+                              live: &BTreeSet<i64>, silent: bool, ri: usize| {
+        for (t, wher) in used.drain(..) {
+            if !silent && !live.contains(&t) {
+                let sfx = reqs.get(ri).map(|q| format!("{}-{}", q.cmd, lv.get(ri).copied().unwrap_or_default().fail_state())).unwrap_or_default();
+                fail(out, format!("thread-unannounced:{wher}:{sfx}"), format!("thread {t} appears in a {wher} but no `thread started` event announced it by the end of that answer"), ri);
+            }
+        }
+        if let Some((cmd, ph)) = owed.take() {
+            fail(out, format!("stop-not-announced:{cmd}-{ph}"), format!("`{cmd}` was answered with success but neither `stopped` nor `exited`/`terminated` follows before the next request is handled"), ri);
+        }
+    };
+    let lv_at = |i: usize| lv.get(i).copied().unwrap_or_default();
     for r in log {
         let m = match r {
-            Rec::Req { cmd, closed, .. } => { if cmd == "launch" && !*closed { terminated_at = None; n_exited = 0; n_terminated = 0; } continue; }
+            Rec::Got | Rec::Closed => {
+                check_boundary(out, &mut fail, &mut used, &mut owed_stop, &live_threads, terminated_at.is_some(), ri);
+                ri = nreq_seen; nreq_seen += 1;
+                if matches!(r, Rec::Got) && reqs.get(ri).is_some_and(|q| q.cmd == "launch" || q.cmd == "attach") { terminated_at = None; n_exited = 0; n_terminated = 0; }
+                continue;
+            }
             Rec::W(m) => { k += 1; m }
             _ => continue,
         };
-        if m["type"] == "response" && m["command"] == "launch" && m["success"] == true { live_threads.clear(); running = false; }
+        if m["type"] == "response" {
+            let cmd = m["command"].as_str().unwrap_or("");
+            if m["success"] == true {
+                // (threads of a debuggee that is replaced while it is alive stay announced until their exit is)
+                if cmd == "launch" || cmd == "attach" { launches_seen += 1; running = false; }
+                if cmd == "threads" { for t in m["body"]["threads"].as_array().into_iter().flatten() { if let Some(id) = t["id"].as_i64() { used.push((id, "threads-response")); } } }
+                let rsp_count = answers.get(ri).map(|a| a.msgs.iter().filter(|x| x["type"] == "response").count()).unwrap_or(0);
+                // (once `terminated` was sent the debuggee is gone for the client: only a request that starts it again owes a stop)
+                if (RESUMING.contains(&cmd) || (terminated_at.is_none() && matches!(cmd, "pause" | "goto" | "restartFrame"))) && rsp_count == 1 {
+                    owed_stop = Some((cmd.to_string(), lv_at(ri).fail_state()));
+                }
+            }
+            continue;
+        }
         if m["type"] != "event" { continue; }
         let ev = m["event"].as_str().unwrap_or("");
         if let Some(t) = terminated_at {
             let key = if is_fwd_output(m) { "output-after-terminated".to_string() } else { format!("event-after-terminated:{ev}") };
-            fail(out, key, format!("`{}` (seq {}) is sent after `terminated` (wire position {} > {})", canon(m), m["seq"], k, t));
+            fail(out, key, format!("`{}` (seq {}) is sent after `terminated` (wire position {} > {})", c(m), m["seq"], k, t), ri);
         }
         match ev {
             "exited" => {
-                n_exited += 1; ever_exited = true;
-                if n_exited > 1 { fail(out, "exited-twice".into(), "`exited` announced twice for one debuggee".into()); }
-                if n_terminated > 0 { fail(out, "exited-after-terminated".into(), "`exited` after `terminated`".into()); }
+                n_exited += 1; ever_exited = true; owed_stop = None;
+                if n_exited > 1 { fail(out, "exited-twice".into(), "`exited` announced twice for one debuggee".into(), ri); }
+                if n_terminated > 0 { fail(out, "exited-after-terminated".into(), "`exited` after `terminated`".into(), ri); }
                 running = false;
             }
             "terminated" => {
-                n_terminated += 1;
-                if n_terminated > 1 { fail(out, "terminated-twice".into(), "`terminated` announced twice for one debuggee".into()); }
+                n_terminated += 1; owed_stop = None;
+                if n_terminated > 1 { fail(out, "terminated-twice".into(), "`terminated` announced twice for one debuggee".into(), ri); }
                 terminated_at = Some(k);
             }
             "continued" => {
-                if running { fail(out, "continued-twice-without-stop".into(), "`continued` announced while already announced as running (no stop in between)".into()); }
+                if running { fail(out, "continued-twice-without-stop".into(), "`continued` announced while already announced as running (no stop in between)".into(), ri); }
                 running = true;
             }
-            "stopped" => { running = false; }
+            "stopped" => {
+                running = false; owed_stop = None;
+                if let Some(t) = m["body"]["threadId"].as_i64() { if !live_threads.contains(&t) { used.push((t, "stopped-event")); } }
+            }
             "thread" => {
                 let id = m["body"]["threadId"].as_i64().unwrap_or(-1);
                 match m["body"]["reason"].as_str().unwrap_or("") {
-                    "started" => if !live_threads.insert(id) { fail(out, "thread-started-twice".into(), format!("thread {id} announced as started twice")); },
-                    "exited" => if !live_threads.remove(&id) { fail(out, "thread-exit-announced-without-live-thread".into(), format!("thread {id} announced as exited but it is not a live announced thread")); },
+                    "started" => if !live_threads.insert(id) { fail(out, "thread-started-twice".into(), format!("thread {id} announced as started twice"), ri); } else { exited_once.remove(&id); },
+                    "exited" => if live_threads.remove(&id) { exited_once.insert(id, launches_seen); } else {
+                        match exited_once.get(&id) {
+                            Some(l) if *l != launches_seen => fail(out, "thread-exited-twice:after-relaunch".into(), format!("the exit of thread {id} was announced before the debuggee was launched again, and is announced a second time afterwards"), ri),
+                            Some(_) => fail(out, "thread-exited-twice".into(), format!("thread {id} announced as exited twice"), ri),
+                            None => fail(out, "thread-exit-without-start".into(), format!("thread {id} announced as exited but its start was never announced"), ri),
+                        }
+                    },
                     _ => {}
                 }
             }
             _ => {}
         }
     }
-    // ---- forwarded output: every line exactly once, in order, none invented (only with a single launch)
+    check_boundary(out, &mut fail, &mut used, &mut owed_stop, &live_threads, terminated_at.is_some(), ri);
+    // ---- forwarded output: every line exactly once, in order, none invented (only for a debuggee that was launched
+    // once and whose execution no request interfered with)
     let launches = wire.iter().filter(|m| m["type"] == "response" && m["command"] == "launch" && m["success"] == true).count();
-    if launches == 1 {
+    let perturbed = wire.iter().any(|m| m["type"] == "response" && m["success"] == true && PERTURBING.contains(&m["command"].as_str().unwrap_or("")));
+    if launches == 1 && !perturbed {
         out.oracle_evals += 1;
         for (cat, exp) in [("stdout", &expected.0), ("stderr", &expected.1)] {
             let got: Vec<u8> = wire.iter().filter(|m| m["event"] == "output" && m["body"]["category"] == cat)
                 .flat_map(|m| m["body"]["output"].as_str().unwrap_or("").as_bytes().to_vec()).collect();
             if !exp.starts_with(&got) {
-                fail(out, format!("output-corrupted:{cat}"), format!("forwarded {cat} ({} bytes) is not a prefix of what the debuggee prints", got.len()));
+                fail(out, format!("output-corrupted:{cat}"), format!("forwarded {cat} ({} bytes) is not a prefix of what the debuggee prints", got.len()), 0);
             } else if ever_exited && got.len() != exp.len() && log.iter().any(|r| matches!(r, Rec::Done)) {
-                fail(out, format!("output-lost:{cat}"), format!("the debuggee exited after printing {} bytes of {cat}, {} were forwarded", exp.len(), got.len()));
+                fail(out, format!("output-lost:{cat}"), format!("the debuggee exited after printing {} bytes of {cat}, {} were forwarded", exp.len(), got.len()), 0);
             }
         }
     }
@@ -671,7 +1162,7 @@ fn oracle(s: &Session, log: &[Rec], status: &str, expected: &(Vec<u8>, Vec<u8>),
 /// writer model tie: reconstruct a schedule (list of writer ids; a writer's steps alternate `alloc`, `write`)
 /// from the allocation log and the wire, lazily allocating; the answer is the wire's seq numbers
 fn sched_line(log: &[Rec]) -> (String, String) {
-    let mut owner: std::collections::BTreeMap<i64, u64> = Default::default();
+    let mut owner: BTreeMap<i64, u64> = Default::default();
     for r in log { if let Rec::A { w, seq } = r { owner.insert(*seq, *w); } }
     let wire: Vec<(u64, i64)> = log.iter().filter_map(|r| if let Rec::W(m) = r {
         let w = if m["event"] == "output" && m["body"]["category"] == "stdout" { 1 } else if m["event"] == "output" && m["body"]["category"] == "stderr" { 2 } else { 0 };
@@ -703,25 +1194,40 @@ pub fn exec(req: &[String], out: &mut Out, dir: &Path) {
     let sessions = parse_sessions(req);
     let sdir = dir.join("sessions");
     std::fs::create_dir_all(&sdir).unwrap();
-    let results = run_workers(&sessions, &sdir, &expected);
+    let results = run_workers(&sessions, &sdir, &expected, out);
+    // the coverage table always lists every command, also those this run never sent
+    for c in COMMANDS { out.count(&format!("cmd.{c}"), 0); }
     for (s, (path, status)) in sessions.iter().zip(results.iter()) {
         if !s.new_line.is_empty() { out.pair(s.new_line.clone(), "ok".into()); }
         let log = load_log(path);
-        let nreq = s.reqs.iter().filter(|(_, r)| r.is_some()).count();
-        let answers = split_answers(&log, nreq);
+        let ranks = thread_ranks(&log);
+        let reqs = s.reqs();
+        let answers = split_answers(&log, reqs.len(), &ranks);
+        let lv = lives(&log);
         let mut k = 0usize;
-        for (line, r) in &s.reqs {
-            match r {
-                None => out.pair(line.clone(), "bad-op".into()),
-                Some(rq) => {
+        for it in &s.items {
+            match it {
+                Item::Bad(line) => out.pair(line.clone(), "bad-op".into()),
+                Item::Pipe(line) => out.pair(line.clone(), "ok".into()),
+                Item::Req(line, rq) => {
                     let a = &answers[k];
-                    k += 1;
                     let ans = answer_line(a);
-                    out.count(&format!("req.{}.{}", rq.cmd, rq.mutn), 1);
+                    if !a.closed && !a.hang {
+                        let ph = lv.get(k).copied().unwrap_or_default().phase(rq.piped);
+                        out.count(&format!("cmd.{}", rq.cmd), 1);
+                        out.count(&format!("cp.{}.{ph}", rq.cmd), 1);
+                        out.count(&format!("cm.{}.{}", rq.cmd, rq.mutn), 1);
+                        out.count(&format!("phase.{ph}"), 1);
+                    } else { out.count("req.after-session-end", 1); }
+                    k += 1;
                     if a.tokens.iter().any(|t| t.ends_with(&format!(".err.{}", rq.cseq))) { out.count("answer.error_response", 1); }
                     if a.tokens.iter().any(|t| t.starts_with("E.stopped")) { out.count("answer.stopped", 1); }
                     if a.tokens.iter().any(|t| t == "E.exited") { out.count("answer.exited", 1); }
-                    out.pair(format!("{line} {}", hints(&rq.cmd, a)), ans);
+                    if a.tokens.iter().any(|t| t.starts_with("E.thread.started")) { out.count("answer.thread_started", 1); }
+                    if a.tokens.iter().any(|t| t.starts_with("E.thread.exited")) && !a.tokens.iter().any(|t| t == "E.terminated") { out.count("answer.thread_exited_by_cache_diff", 1); }
+                    if rq.cmd == "threads" && a.tokens.iter().any(|t| t.starts_with("E.thread.started")) { out.count("answer.thread_started_by_threads_request", 1); }
+                    if CANCELLABLE.contains(&rq.cmd.as_str()) && a.msgs.iter().any(|m| m["type"] == "response" && m["message"] == "cancelled") { out.count(&format!("answer.cancelled.{}", rq.cmd), 1); }
+                    out.pair(format!("{line} {}", hints(rq, a, &ranks)), ans);
                 }
             }
         }
@@ -733,8 +1239,8 @@ pub fn exec(req: &[String], out: &mut Out, dir: &Path) {
             out.pair(rq, ans);
         }
         let ex = if s.variant == "threads" { &expected[1] } else { &expected[0] };
-        oracle(s, &log, status, ex, out);
-        out.sample(json!({"session": s.new_line, "requests": s.reqs.iter().map(|(l, _)| l.clone()).collect::<Vec<_>>(),
+        oracle(s, &log, status, ex, &ranks, out);
+        out.sample(json!({"session": s.new_line, "requests": s.lines()[1..].to_vec(),
             "answers": answers.iter().map(|a| a.tokens.join(",")).collect::<Vec<_>>() }));
     }
 }
@@ -748,5 +1254,12 @@ pub fn run(args: &[String]) {
     };
     let dir = a.out.clone();
     exec(&req, &mut out, &dir);
+    if a.replay.is_none() {
+        // cells of the (command, phase) table that this seeded run did not reach
+        let mut empty = 0u64;
+        for c in COMMANDS { for p in PHASES { if out.stats.get(&format!("cp.{c}.{p}")).is_none() { empty += 1; } } }
+        out.count("coverage.command_phase_cells_total", (COMMANDS.len() * PHASES.len()) as u64);
+        out.count("coverage.command_phase_cells_not_reached_in_this_run", empty);
+    }
     out.finish();
 }
